@@ -679,6 +679,29 @@ fn random_sock(ctx: &mut Ctx, cases: u32) {
 
 fn replay(ctx: &mut Ctx, v: &Value) {
     let cj = &v["case"];
+    if cj["ping_multiplex"] == json!(true) {
+        ctx.case(None);
+        ctx.force_sample(cj.clone());
+        let nums = |x: &Value| -> Vec<u64> { x.as_array().map(|a| a.iter().filter_map(|y| y.as_u64()).collect()).unwrap_or_default() };
+        let c = PingCase {
+            n: cj["requests"].as_u64().unwrap_or(1) as usize,
+            cuts: nums(&cj["cuts"]).into_iter().map(|x| x as u16).collect(),
+            pauses: nums(&cj["pauses_ms"]).into_iter().map(|x| x as u8).collect(),
+            close: cj["close_code"].as_u64().unwrap_or(0) as u8,
+        };
+        match start_ping() {
+            None => ctx.inconclusive("the ping example binary is not built"),
+            Some(server) => {
+                for _ in 0..30 {
+                    if let Err(f) = run_ping_case(&server.addr, &c) {
+                        ctx.violation(&f.key, &f.what, "c02-replay", cj.clone());
+                        break;
+                    }
+                }
+            }
+        }
+        return;
+    }
     let case = Case::from_json(cj);
     ctx.case(None);
     ctx.force_sample(cj.clone());
@@ -707,6 +730,138 @@ fn replay(ctx: &mut Ctx, v: &Value) {
     }
 }
 
+// ------------------------------------------------------------------------------------------------
+// the repository's own reference caller of the tail API: examples/ping --multiplex
+
+#[derive(Clone, Debug)]
+pub struct PingCase {
+    pub n: usize,
+    pub cuts: Vec<u16>,
+    pub pauses: Vec<u8>,
+    /// 0: half-close right after the last write; 1: half-close after all replies arrived
+    pub close: u8,
+}
+
+fn ping_json(c: &PingCase) -> Value {
+    let close = ["half-close right after the last write", "half-close after the replies"][c.close as usize % 2];
+    json!({"ping_multiplex": true, "requests": c.n, "cuts": c.cuts, "pauses_ms": c.pauses, "close": close, "close_code": c.close})
+}
+
+pub fn run_ping_case(addr: &str, c: &PingCase) -> Result<bool, Fail> {
+    let mut bytes = vec![];
+    let mut want = vec![];
+    for i in 0..c.n {
+        let tok = vl_model::wire::token(i);
+        bytes.extend(vl_model::wire::encode(&json!({"method": "org.example.ping.Ping", "parameters": {"ping": tok}}), vl_model::wire::Style::Compact));
+        want.extend(vl_model::wire::encode(&json!({"parameters": {"pong": tok}}), vl_model::wire::Style::Compact));
+    }
+    let mut peer = Peer::connect(addr).map_err(|e| Fail::new("HARNESS/ping-connect", e.to_string()))?;
+    // cut positions are fractions of the stream (monotone in the drawn number, so that shrinking works)
+    let mut cuts: Vec<usize> = c.cuts.iter().map(|x| (*x as usize * bytes.len()) >> 16).collect();
+    cuts.sort();
+    cuts.dedup();
+    let chunks = chunks_of(&bytes, &cuts);
+    for (i, ch) in chunks.iter().enumerate() {
+        peer.send(ch);
+        let p = c.pauses.get(i).cloned().unwrap_or(0) % 4;
+        if p > 0 {
+            std::thread::sleep(Duration::from_millis(p as u64));
+        }
+    }
+    if c.close % 2 == 1 {
+        if matches!(peer.wait_finals(c.n, Duration::from_secs(10)), vl_model::sock::Wait::Stalled) {
+            // not all replies while the connection is open: decide below from what arrived
+        }
+    }
+    peer.half_close();
+    let hung = matches!(peer.wait_eof(Duration::from_secs(10)), vl_model::sock::Wait::Stalled);
+    let got = peer.finish();
+    if got != want {
+        if hung && want.starts_with(&got) && got.len() == want.len() {
+            return Ok(false);
+        }
+        let d = first_diff(&got, &want);
+        return Err(Fail::new(
+            "ping-multiplex/seg/replies-differ",
+            format!(
+                "examples/ping --multiplex, {} pipelined Ping requests in {} segments ({}): replies differ from the unsegmented expectation at offset {} ({} vs {} bytes): got {} vs expected {}",
+                c.n,
+                chunks.len(),
+                ["half-close right after the last write", "half-close after the replies"][c.close as usize % 2],
+                d,
+                got.len(),
+                want.len(),
+                show(&got, d),
+                show(&want, d)
+            ),
+        ));
+    }
+    Ok(!hung)
+}
+
+struct PingServer {
+    child: std::process::Child,
+    _scratch: Scratch,
+    addr: String,
+}
+
+impl Drop for PingServer {
+    fn drop(&mut self) {
+        let _ = self.child.kill();
+        let _ = self.child.wait();
+    }
+}
+
+fn start_ping() -> Option<PingServer> {
+    let dir = std::env::var_os("VERIF_REPO_BIN")?;
+    let exe = std::path::Path::new(&dir).join("ping");
+    if !exe.exists() {
+        return None;
+    }
+    let scratch = Scratch::new("c02p");
+    let path = scratch.path.join("ping.sock");
+    let addr = format!("unix:{}", path.display());
+    let child = std::process::Command::new(exe)
+        .arg(format!("--varlink={}", addr))
+        .arg("--multiplex")
+        .stdin(std::process::Stdio::null())
+        .stdout(std::process::Stdio::null())
+        .stderr(std::process::Stdio::null())
+        .spawn()
+        .ok()?;
+    let t0 = std::time::Instant::now();
+    while !path.exists() && t0.elapsed() < Duration::from_secs(10) {
+        std::thread::sleep(Duration::from_millis(5));
+    }
+    Some(PingServer { child, _scratch: scratch, addr })
+}
+
+fn ping_multiplex(ctx: &mut Ctx, cases: u32) {
+    let Some(server) = start_ping() else {
+        ctx.exclude("ping-multiplex:binary-not-built");
+        return;
+    };
+    let addr = server.addr.clone();
+    let strat = (1usize..=6, prop::collection::vec(any::<u16>(), 0..6), prop::collection::vec(0u8..4, 0..7), 0u8..2).prop_map(|(n, cuts, pauses, close)| PingCase { n, cuts, pauses, close });
+    let hung = std::cell::Cell::new(0u32);
+    let r = pt::check_with(ctx, "c02-ping", cases, 200, 60_000, strat, |ctx, c| {
+        ctx.case(if c.n >= 2 && !c.cuts.is_empty() { Some(hash64(&ping_json(c).to_string())) } else { None });
+        ctx.class("ping-multiplex:segmented-pipelined-pings");
+        ctx.sample(|| ping_json(c));
+        if !run_ping_case(&addr, c)? {
+            hung.set(hung.get() + 1);
+        }
+        Ok(())
+    });
+    if let Some((c, f)) = r {
+        ctx.violation(&f.key, &f.what, "c02-ping", ping_json(&c));
+    }
+    if hung.get() > 0 {
+        ctx.inconclusive(&format!("{} ping-multiplex runs did not reach end-of-stream within 10 s", hung.get()));
+    }
+    drop(server);
+}
+
 pub fn run(args: &Args) -> ! {
     let mut ctx = Ctx::new(args, "exploration");
     ctx.rule = RULE.into();
@@ -726,6 +881,8 @@ pub fn run(args: &Args) -> ! {
     ctx.bump_sample_cap(6);
     let n = ctx.tier.pick(300, 6_000);
     random_sock(&mut ctx, n);
+    let n = ctx.tier.pick(300, 6_000);
+    ping_multiplex(&mut ctx, n);
     ctx.exhaustive = Some(false);
     ctx.finish()
 }
